@@ -266,6 +266,22 @@ func sameMultiset(a, b []point) bool {
 func onStreamJobs(want func(string) bool) []func() *caseOut {
 	var jobs []func() *caseOut
 	r := rng.FromEnv(1602)
+	{
+		sr := rng.FromEnv(1603)
+		nsf := 6
+		if thorough() {
+			nsf = 30
+		}
+		for k := 0; k < nsf; k++ {
+			nb := 3 + sr.Intn(4)
+			target := 1 + sr.Intn(nb-1)
+			seed := sr.U64()
+			name := fmt.Sprintf("onstream-shortframe-%d", k)
+			if want(name) {
+				jobs = append(jobs, func() *caseOut { return runShortFrameCase(name, nb, target, seed) })
+			}
+		}
+	}
 	add := func(name string, sc *script) {
 		seed := r.U64()
 		if want(name) {
@@ -425,4 +441,102 @@ func runC16(want func(string) bool) {
 	}
 	jobs = append(jobs, grpcOnStreamJobs(want)...)
 	runCases(6, jobs)
+}
+
+// ---- a frame that announces one record more than it carries --------------------------------------
+// The stream is written by the real MetricsWriter; in one data frame (not the first) the record count
+// at the start of the frame content is raised by one, nothing else is touched. The decoder runs out of
+// column data on the phantom record (a plain io.EOF from inside the frame). Whatever the receiver does
+// with such a stream, it must not acknowledge an id beyond the records that exist: the reader's record
+// counter moves BEFORE a record is decoded, so the count after a failed Read is not a decoded record.
+// (The ids are judged against what the receiver decoded and handed to the consumer, not against what the
+// writer wrote: some column layouts let the decoder produce the phantom record without an error.)
+
+type tamperPipe struct {
+	*chunkPipe
+	chunk, target int
+	tampered      bool
+	recsBefore    []int // record count announced by each data frame, as written
+}
+
+func (p *tamperPipe) WriteChunk(header []byte, content []byte) error {
+	c := append([]byte(nil), content...)
+	if len(c) > 0 && p.chunk >= 2 { // chunk 0: fixed header, chunk 1: variable header
+		if c[0] < 0x7e {
+			p.recsBefore = append(p.recsBefore, int(c[0]))
+			if p.chunk-2 == p.target {
+				c[0]++
+				p.tampered = true
+			}
+		}
+	}
+	p.chunk++
+	return p.chunkPipe.WriteChunk(header, c)
+}
+
+func runShortFrameCase(name string, nb, target int, seed uint64) *caseOut {
+	c := newCase("C16", name)
+	r := rng.New(seed)
+	tr := newTracer()
+	fs := newFakeStream(tr)
+	fs.failFrom = -1
+	pipe := &tamperPipe{chunkPipe: newChunkPipe(), target: target}
+	cons := &scriptedConsumer{tr: tr}
+	next, _ := consumer.NewMetrics(cons.consume)
+	w, err := otelstef.NewMetricsWriter(pipe, pkg.WriterOptions{})
+	if err != nil {
+		c.fail("harness-writer", "NewMetricsWriter: %v", err)
+		return c
+	}
+	done := make(chan error, 1)
+	go func() {
+		defer func() {
+			if p := recover(); p != nil {
+				done <- fmt.Errorf("panic: %v", p)
+			}
+		}()
+		done <- verifhooks.OnStream(logger, next, pipe.chunkPipe, fs)
+	}()
+	for i := 0; i < nb; i++ {
+		md := genMetrics(r, fmt.Sprintf("b%d", i), 1+r.Intn(5))
+		tree, err := sortedbymetric.OtlpToSortedTree(md)
+		if err == nil {
+			err = tree.ToStef(w)
+		}
+		if err == nil {
+			err = w.Flush()
+		}
+		if err != nil {
+			c.fail("harness-writer", "writing batch %d: %v", i, err)
+			break
+		}
+	}
+	total := int(w.RecordCount())
+	time.Sleep(60 * time.Millisecond) // several ticks of the Responder
+	pipe.Close()
+	select {
+	case <-done:
+	case <-time.After(4 * time.Second):
+		c.fail("onstream-hang", "onStream did not return within 4 s after the source ended (short-frame case)")
+	}
+	time.Sleep(30 * time.Millisecond)
+	c.stat("cases-shortframe", 1)
+	if !pipe.tampered {
+		c.note("note case %s: no frame was tampered with", name)
+		return c
+	}
+	c.note("nontrivial %x", uint64(nb)<<8|uint64(target))
+	existing := 0 // records that exist up to and including the tampered frame
+	for i, n := range pipe.recsBefore {
+		if i <= target {
+			existing += n
+		}
+	}
+	_ = total
+	// judged by what the receiver itself decoded and handed on (a decoder may make a record out of an
+	// exhausted column without noticing - that is C03 / C05's business, the receiver cannot know):
+	// the standard oracles - an acknowledged id is the last id of a decoded, consumed batch
+	finishC16(c, tr.snapshot(), oracleOpts{exactRanges: false, quiescent: false, written: -1})
+	c.stat("shortframe-records-existing", existing)
+	return c
 }
